@@ -39,7 +39,8 @@ def constructor_rules(ctx, prog):
         names = sorted(str(a[1][1][1]) if isinstance(a, tuple) and a[0] == "addr" and a[1][0] == "d" and a[1][1][0] == "g" else str(a)
                        for a in args[0] if a != "NULL")
         tok = ("ext", "fileno(%s)" % ",".join(names))
-        return [(st, fs(-1)), (st, fs(tok))]
+        from ..models import with_errno
+        return [(with_errno(st, fs(I.abs_int(9))), fs(-1)), (st, fs(tok))]
 
     def m_open_rec(I, fn, n, args, st):
         outs = m_open(I, fn, n, args, st)
